@@ -24,6 +24,9 @@ ASSUMPTIONS = [
     "When no optimum exists the reported status may be any non-optimal status (GLPK does not always distinguish "
     "unbounded from undefined); the raised exception must be the class cobra maps that status to.",
     "exactlp certificates are verified in exact arithmetic; a failing certificate is a harness error.",
+    "Badly scaled models (bounds or optimal fluxes below the solver tolerance of 1e-7) are not generated: glp_simplex was "
+    "observed to loop forever on them (no time limit is configured), and verdicts about infeasibilities of that size are not "
+    "the exact ones. A change that only affects fluxes below the tolerance (seeded change C04-6) is therefore not detected.",
 ]
 
 TOL = 1e-6
@@ -84,7 +87,8 @@ def check_solution_optimal(spec, sol, sense, exact, known, ctx, where="optimize"
     cv = sum(c * flux[rid] for rid, c in cvec.items())
     opt = float(exact.value)
     scale = max(1.0, abs(opt))
-    if abs(sol.objective_value - cv) > TOL * scale:
+    # objective_value and the fluxes come from the same primal values: they agree far below the solver tolerance
+    if abs(sol.objective_value - cv) > 1e-9 * max(1.0, sum(abs(c * flux[rid]) for rid, c in cvec.items())):
         _v(f"{where}:objective-vs-fluxes", f"objective_value {sol.objective_value!r} but c.v = {cv!r}")
     if abs(sol.objective_value - opt) > TOL * scale:
         _v(f"{where}:not-optimal", f"objective_value {sol.objective_value!r} but exact optimum is {exact.value} ({sense})")
